@@ -140,9 +140,15 @@ def check(case):
                     shaper = other
                     continue
                 fmt = op[1] if op[0] == "shex" else "profile"
-                got, gfile = do_call(shaper, op, d, "h%d" % i)
                 fresh = sut.Shaper(**make_kwargs(case, copy.deepcopy(case["ns"])))
                 exp, efile = do_call(fresh, [op[0]] + ([op[1], "string", op[3]] if op[0] == "shex" else ["string"]), d, "m%d" % i)
+                try:
+                    got, gfile = do_call(shaper, op, d, "h%d" % i)
+                except sut.Timeout:
+                    raise
+                except Exception as e:
+                    c = sut.Crash(e)
+                    return "step %d %s raises %s: %s although a fresh Shaper completes the same call\n%s" % (i, op, c.bucket, c.msg, c.tb[-800:])
                 sink = op[2] if op[0] == "shex" else op[1]
                 if sink in ("string", "both") and not same_text(fmt, got, exp):
                     return "step %d %s: text differs from what a fresh Shaper returns for the same call\n--- history ---\n%s\n--- fresh ---\n%s" % (i, op, _clip(got), _clip(exp))
